@@ -223,7 +223,7 @@ pub fn run_history(spec_flags: &Flags, prog: &Arc<Program>, hist: &[Op], stats: 
 }
 
 pub fn is_request(op: &Op) -> bool {
-    matches!(op, Op::Q(_) | Op::Q2(..) | Op::Q0 | Op::Acc(_) | Op::QFld(..) | Op::QOnTs(..) | Op::QInt(..) | Op::NewInput(_))
+    matches!(op, Op::Q(_) | Op::Q2(..) | Op::Q0 | Op::Acc(_) | Op::QFld(..) | Op::QOnTs(..) | Op::QInt(..) | Op::NewInput(_) | Op::QK(..))
 }
 
 pub fn pk_name(p: &Pk) -> &'static str {
